@@ -41,7 +41,6 @@ def run : St → List Char → Step
 def finish (k : St → Res CellFormat) : Step → Res CellFormat
   | .cont st => k st
   | .ret f => .ok f
-  | .panic => .panic "formats::detect_custom_number_format: attempt to add with overflow (brackets)"
 
 theorem scan_nil (st : St) : scan st [] = .ok .other := rfl
 
@@ -59,7 +58,6 @@ theorem scan_append (st : St) (l t : List Char) :
     cases h : step st c with
     | cont st' => simp only [finish]; exact ih st'
     | ret f => rfl
-    | panic => rfl
 
 theorem run_append (st : St) (l t : List Char) :
     run st (l ++ t) = match run st l with
@@ -72,7 +70,6 @@ theorem run_append (st : St) (l t : List Char) :
     cases h : step st c with
     | cont st' => exact ih st'
     | ret f => rfl
-    | panic => rfl
 
 theorem run_append_cont {st st' : St} {l : List Char} (t : List Char) (h : run st l = .cont st') :
     run st (l ++ t) = run st' t := by rw [run_append, h]
@@ -660,98 +657,25 @@ theorem scan_wf_section (ts : List Tok) (hwf : wfSection ts = true) (post : List
     | dateTime => rfl
     | timeDelta => rfl
 
-/-! ### no overflow of the bracket counter while fewer than 256 `[` have been read -/
+/-! ### the loop never panics: no arm can (the bracket counter is a `usize`, see `St.brackets`) -/
 
-theorem stepTail_cont_brackets (st st' : St) (c : Char) (h : stepTail st c = .cont st') :
-    st'.brackets ≤ st.brackets + (if c = '[' then 1 else 0) := by
-  unfold stepTail at h
-  split at h
-  · injection h with h; subst h; simp
-  split at h
-  · cases h
-  split at h
-  · split at h
-    · cases h
-    · injection h with h; subst h; rename_i hc _; simp [hc]
-  split at h
-  · cases h
-  split at h
-  · injection h with h; subst h; simp; omega
-  split at h
-  · injection h with h; subst h; simp
-  split at h
-  · cases h
-  split at h
-  · cases h
-  · injection h with h; subst h; simp
-
-theorem stepTail_panic_brackets (st : St) (c : Char) (h : stepTail st c = .panic) : c = '[' ∧ st.brackets ≥ 255 := by
-  unfold stepTail at h
-  split at h
-  · cases h
-  split at h
-  · cases h
-  split at h
-  · split at h
-    · rename_i hc hb; exact ⟨hc, hb⟩
-    · cases h
-  split at h
-  · cases h
-  split at h
-  · cases h
-  split at h
-  · cases h
-  split at h
-  · cases h
-  split at h
-  · cases h
-  · cases h
-
-theorem step_cont_brackets (st st' : St) (c : Char) (h : step st c = .cont st') :
-    st'.brackets ≤ st.brackets + (if c = '[' then 1 else 0) := by
-  unfold step at h
-  split at h
-  · injection h with h; subst h; simp
-  split at h
-  · injection h with h; subst h; simp
-  split at h
-  · injection h with h; subst h; simp
-  split at h
-  · injection h with h; subst h; simp
-  · exact stepTail_cont_brackets st st' c h
-
-theorem step_panic_brackets (st : St) (c : Char) (h : step st c = .panic) : c = '[' ∧ st.brackets ≥ 255 := by
-  unfold step at h
-  split at h
-  · cases h
-  split at h
-  · cases h
-  split at h
-  · cases h
-  split at h
-  · cases h
-  · exact stepTail_panic_brackets st c h
-
-theorem scan_no_panic (st : St) (l : List Char) (h : st.brackets + l.count '[' ≤ 255) (msg : String) :
-    scan st l ≠ .panic msg := by
+theorem scan_no_panic (st : St) (l : List Char) (msg : String) : scan st l ≠ .panic msg := by
   induction l generalizing st with
   | nil => simp [scan, scanWith]
   | cons c cs ih =>
     rw [scan_cons]
     cases hs : step st c with
-    | cont st' =>
-      have hb := step_cont_brackets st st' c hs
-      simp only [finish]
-      apply ih
-      simp only [List.count_cons, beq_iff_eq] at h
-      by_cases hc : c = '['
-      · simp only [hc, if_true] at h hb; omega
-      · simp only [hc, if_false] at h hb; omega
+    | cont st' => simp only [finish]; exact ih st'
     | ret f => simp [finish]
-    | panic =>
-      obtain ⟨rfl, hb⟩ := step_panic_brackets st c hs
-      simp only [List.count_cons, beq_self_eq_true, if_true] at h
-      omega
+
+theorem scan_total (st : St) (l : List Char) : ∃ c, scan st l = .ok c := by
+  induction l generalizing st with
+  | nil => exact ⟨.other, rfl⟩
+  | cons c cs ih =>
+    rw [scan_cons]
+    cases hs : step st c with
+    | cont st' => simp only [finish]; exact ih st'
+    | ret f => exact ⟨f, rfl⟩
 
 theorem stops_renderRest (rest : List (List Tok)) : Stops (renderRest rest) := by
   cases rest with
